@@ -217,9 +217,11 @@ int GetPathDepth(const char * path)
    if (path[0] == '/') path++;  // ignore any leading slash
 
    int depth = 0;
+   bool isFirstClause = true;
    while(true)
    {
-      if (path[0]) depth++;
+      if ((path[0])||(isFirstClause == false)) depth++;  // an empty clause after a slash counts (as PutPathString() counts it); an empty path has no clauses
+      isFirstClause = false;
 
       path = strchr(path, '/');
       if (path) path++;
